@@ -207,10 +207,15 @@ def run(ctx):
                     ob1.unknown("%s at rate %s: the conversion is written with objects / function arguments the elaborator does not evaluate (%s)" % (f, rate, key(T)[:140]))
                     continue
                 bad = "does not depend on both the ns and the ck component (%s)" % key(T)
-            elif any(d != [UP] for d in dirs_ns):
+            elif any((not d) or any(x != UP for x in d) for d in dirs_ns):
                 bad = "nanosecond path rounding is %s, expected exactly one ceil" % dirs_ns
-            elif any(d != [UP] for d in dirs_ck):
+            elif any((not d) or any(x != UP for x in d) for d in dirs_ck):
                 bad = "clock-count path rounding is %s, expected exactly one ceil" % dirs_ck
+            elif any(len(d) > 1 for d in dirs_ns + dirs_ck):
+                # several ceilings in a row only ever round further up; the formula between them is another conversion than the one this rule compares
+                ob1.unknown("%s at rate %s: the conversion rounds up more than once (%s / %s): conservative in direction, but the arithmetic between the "
+                            "ceilings is not compared" % (f, rate, dirs_ns, dirs_ck))
+                continue
             elif any("min" in p for p in ns_paths + ck_paths):
                 bad = "a min() sits on the path"
             elif not (isinstance(T, Op) and T.op == "max"):
